@@ -8,11 +8,11 @@ after that subscription ended by terminal event, unsubscribe or early completion
 finishes subscriptions repeatedly does not accumulate threads."
 
 Main theorems: `Interval.interval_exits_within_one_period`, `Interval.interval_exits_eventually` (liveness form), `Timer.timer_exits`, `Debounce.debounce_exits`,
-`Timeout.timeout_timer_exits` (+ `timeout_not_raced`, `timeout_timer_exits_partial`), `Rounds.no_accumulation`.
-`Timeout` is the model of operators/timeout.rs AFTER the repair (on_finalize cancels the armed timer; a new timer is armed
-only if still subscribed): `Timeout.timeout_timer_cancelled_on_complete` replays the run that used to leak.
-RESIDUAL FINDING: `Timeout.timeout_timer_race_outlives_one_period` — the `is_subscribed` test and the store of the new timer
-are not atomic; an unsubscribe by another thread exactly between them leaves a timer that is never cancelled (two periods).
+`Timeout.timeout_timer_exits` (unconditional: ONE period), `Rounds.no_accumulation`.
+`Timeout` is the model of operators/timeout.rs at HEAD 11cd3c1 (on_finalize cancels the armed timer; a new timer is armed
+only if still subscribed, and cancelled by a re-check after the store if the subscription ended meanwhile):
+`Timeout.timeout_timer_cancelled_on_complete` and `Timeout.timeout_timer_recheck_cancels` replay the two runs that used to
+leak a timer thread for two periods.
 -/
 namespace Rx.Timed
 
@@ -25,40 +25,53 @@ its thread wakes at 15, sees the cancellation and exits at 15 ≤ 6 + 10 (before
 lived until 25) -/
 theorem timeout_timer_cancelled_on_complete :
     (replay lateP
-      [.tick 5, .run 0, .run 0, .run 0, .run 0, .run 0, .run 2, .tick 6, .run 0, .run 0, .tick 15, .run 2, .run 2, .run 2,
-       .tick 16]).map
+      [.tick 5, .run 0, .run 0, .run 0, .run 0, .run 0, .run 0, .run 2, .tick 6, .run 0, .run 0, .tick 15, .run 2, .run 2,
+       .run 2, .tick 16]).map
       (fun s => (s.now, s.outerEndedAt, s.timers.map (fun w => (w.endedAt, w.exitedAt)), liveTimers s))
       = some (16, some 6, [(some 6, some 15)], 0) := by decide
 
 def raceP : Params := { d := 10, script := [(.rel 5, .next (.int 1))], unsubAt := some 5 }
 
-/-- **C15 residual finding.**  `if sctl_next.is_subscribed() { *timer.write() = Some(…subscribe(…)) }`
-(timeout.rs:73-90) is a test followed by a store.  If ANOTHER thread unsubscribes the outer subscription exactly
-between the two (here at time 5, the instant of the item), `finalize` finds the `timer` cell empty, `on_finalize` is
-consumed, and the timer stored afterwards is never cancelled: it fires silently at 15 and its thread sleeps a second
-period — at time 17 > 5 + 10 it is still alive (until 25). -/
-theorem timeout_timer_race_outlives_one_period :
+/-- the second repair (timeout.rs:90-97): another thread unsubscribes (and finalizes, finding the `timer` cell empty)
+between the `is_subscribed` test and the store of the new timer, at time 5; the re-check after the store sees the
+ended subscription and cancels the timer just stored, whose thread exits at 15 = 5 + 10 (before this repair it fired
+silently at 15 and lived until 25) -/
+theorem timeout_timer_recheck_cancels :
     (replay raceP
-      [.tick 5, .run 0, .run 0, .run 0, .run 0, .run 1, .run 0, .run 2, .tick 15, .run 2, .run 2, .run 2, .tick 17]).map
-      (fun s => (s.now, s.outerEndedAt, s.raced, liveTimers s))
-      = some (17, some 5, true, 1) := by decide
+      [.tick 5, .run 0, .run 0, .run 0, .run 0, .run 1, .run 1, .run 0, .run 0, .run 2, .tick 15, .run 2, .run 2, .run 2,
+       .tick 16]).map
+      (fun s => (s.now, s.outerEndedAt, s.timers.map (fun w => (w.endedAt, w.exitedAt)), liveTimers s))
+      = some (16, some 5, [(some 5, some 15)], 0) := by decide
 
-/-- **C15 `timeout_timer_exits`.**  In every reachable state of the repaired `timeout(d)` in which no unsubscribe by
-another thread fell between the `is_subscribed` test and the store of a new timer (`raced = false`; always so when
-there is no unsubscriber thread, `timeout_not_raced`):
- (1) a timer thread whose own subscription ended at `e` (cancelled by the next item or by `finalize`, or completed by
-     firing) has exited once the clock passed `e + d`, after at most one more sleep and at most 5 more micro-steps;
- (2) once the OUTER subscription ended at `E` (terminal event, `TimedOut`, unsubscribe), EVERY timer's subscription has
-     ended no later than `E`, and every timer thread has exited when the clock passed `E + d` — ONE period. -/
-theorem timeout_timer_exits (p : Params) (s : State) (hr : Reach (step p) (init p) s) (hrace : s.raced = false) :
+/-- **C15 `timeout_timer_exits`.**  In every reachable state of `timeout(d)` (HEAD 11cd3c1; any script, any consumer
+handling times, any unsubscription instant, any interleaving — including an unsubscribe by another thread between the
+`is_subscribed` test, the store of the new timer and the re-check):
+ (1) a timer thread whose own subscription ended at `e` (cancelled by the next item, by `finalize` or by the re-check,
+     or completed by firing) has exited once the clock passed `e + d`, after at most one more sleep and at most 5 more
+     micro-steps;
+ (2) once the OUTER subscription ended at `E` (terminal event, `TimedOut`, unsubscribe), no timer's subscription ends
+     later than `E`, every timer's subscription HAS ended as soon as the clock passed `E`, and every timer thread has
+     exited when the clock passed `E + d` — ONE period. -/
+theorem timeout_timer_exits (p : Params) (s : State) (hr : Reach (step p) (init p) s) :
     (∀ (i : Nat) (w : IW), s.timers[i]? = some w → ∀ e : Nat, w.endedAt = some e → e + p.d < s.now → w.pc = .exited) ∧
     (∀ (i : Nat) (w : IW), s.timers[i]? = some w → w.sleepsAfterEnd ≤ 1 ∧ w.stepsAfterEnd ≤ 5) ∧
     (∀ E : Nat, s.outerEndedAt = some E →
+      ∀ (i : Nat) (w : IW) (e : Nat), s.timers[i]? = some w → w.endedAt = some e → e ≤ E) ∧
+    (∀ E : Nat, s.outerEndedAt = some E → E < s.now →
       ∀ (i : Nat) (w : IW), s.timers[i]? = some w → ∃ e : Nat, w.endedAt = some e ∧ e ≤ E) ∧
     (∀ E : Nat, s.outerEndedAt = some E → E + p.d < s.now →
       ∀ (i : Nat) (w : IW), s.timers[i]? = some w → w.pc = .exited) := by
   have h := reach_inv hr
-  refine ⟨?_, ?_, ?_, ?_⟩
+  have hended : ∀ E : Nat, s.outerEndedAt = some E → E < s.now →
+      ∀ (i : Nat) (w : IW), s.timers[i]? = some w → ∃ e : Nat, w.endedAt = some e ∧ e ≤ E := by
+    intro E hE hlt i w hw
+    cases he : w.endedAt with
+    | some e => exact ⟨e, rfl, h.ended_le_E E hE i w e hw he⟩
+    | none =>
+      exfalso
+      have hs := (h.timers_ok i w hw).1.sub_iff.2 he
+      have := sub_now h hE hw hs; omega
+  refine ⟨?_, ?_, h.ended_le_E, hended, ?_⟩
   · intro i w hw e he hn
     exact IW.exited_after (h.timers_ok i w hw).1 he hn
   · intro i w hw
@@ -66,38 +79,9 @@ theorem timeout_timer_exits (p : Params) (s : State) (hr : Reach (step p) (init 
     refine ⟨iw.sleeps.1, ?_⟩
     have := iw.steps.1
     cases hp : w.pc <;> simp [hp, IW.stepBound] at this <;> omega
-  · intro E hE i w hw
-    exact (h.ended_all E hE hrace).2 i w hw
   · intro E hE hn i w hw
-    obtain ⟨e, he, hle⟩ := (h.ended_all E hE hrace).2 i w hw
+    obtain ⟨e, he, hle⟩ := hended E hE (by omega) i w hw
     exact IW.exited_after (h.timers_ok i w hw).1 he (by omega)
-
-/-- without an unsubscriber thread the race cannot happen -/
-theorem timeout_not_raced (p : Params) (s : State) (hr : Reach (step p) (init p) s) (hu : p.unsubAt = none) :
-    s.raced = false := by
-  cases h : s.raced
-  · rfl
-  · exact absurd hu ((reach_inv hr).raced_u h)
-
-/-- unconditionally (race included) every timer thread has exited two periods after the outer end -/
-theorem timeout_timer_exits_partial (p : Params) (s : State) (hr : Reach (step p) (init p) s) :
-    ∀ E : Nat, s.outerEndedAt = some E → E + 2 * p.d < s.now →
-      ∀ (i : Nat) (w : IW), s.timers[i]? = some w → w.pc = .exited := by
-  have h := reach_inv hr
-  intro E hE hn i w hw
-  obtain ⟨iw, tw⟩ := h.timers_ok i w hw
-  have hb := h.outer_born E hE i w hw
-  cases he : w.endedAt with
-  | some e =>
-    have := tw.ended e he
-    exact IW.exited_after iw he (by omega)
-  | none =>
-    exfalso
-    have hs := iw.sub_iff.2 he
-    rcases (tw.first hs).2 with h1 | h1 | h1
-    · have := tw.top hs h1; have := h.outer_le E hE; omega
-    · have := (iw.sl_now h1).1; have := tw.sl hs h1; omega
-    · have := tw.em hs h1; omega
 
 end Timeout
 
@@ -521,8 +505,6 @@ end Rx.Timed
 #print axioms Rx.Timed.Timer.timer_exits
 #print axioms Rx.Timed.Debounce.debounce_exits
 #print axioms Rx.Timed.Timeout.timeout_timer_exits
-#print axioms Rx.Timed.Timeout.timeout_not_raced
-#print axioms Rx.Timed.Timeout.timeout_timer_exits_partial
 #print axioms Rx.Timed.Timeout.timeout_timer_cancelled_on_complete
-#print axioms Rx.Timed.Timeout.timeout_timer_race_outlives_one_period
+#print axioms Rx.Timed.Timeout.timeout_timer_recheck_cancels
 #print axioms Rx.Timed.Rounds.no_accumulation
